@@ -315,7 +315,7 @@ func (fr *Frame) externalCall(name string, sig *types.Signature, args []Val, rt 
 				vc.assume(fr.curR, vc.typeFacts(nv))
 				h = vc.storeLoc(h, a.Loc, nv)
 			} else if vc.flatStruct(u.Elem()) {
-				set["H_"+vc.typeName(u.Elem())+".*"] = true
+				vc.structFamilies(u.Elem(), set, map[string]bool{})
 			} else {
 				set["E_"+vc.typeName(u.Elem())+"*"] = true
 			}
@@ -800,7 +800,11 @@ func (vc *VC) modSetExternal(c *ssa.CallCommon, set map[string]bool) {
 				set["E_"+vc.typeName(u.Elem())+"*"] = true
 			}
 		case *types.Pointer:
-			vc.addrFamilies(a, set)
+			if vc.flatStruct(u.Elem()) {
+				vc.structFamilies(u.Elem(), set, map[string]bool{})
+			} else {
+				vc.addrFamilies(a, set)
+			}
 		}
 	}
 }
@@ -1069,4 +1073,31 @@ func mentionsGhostVar(ct *Contract, src string) bool {
 		}
 	}
 	return false
+}
+
+// structFamilies: the field families of struct type T including those of the
+// structs / arrays embedded in it by value (one level of pointers is not followed).
+func (vc *VC) structFamilies(T types.Type, set map[string]bool, seen map[string]bool) {
+	n := vc.typeName(T)
+	if seen[n] {
+		return
+	}
+	seen[n] = true
+	set["H_"+n+".*"] = true
+	st, ok := T.Underlying().(*types.Struct)
+	if !ok {
+		return
+	}
+	for i := 0; i < st.NumFields(); i++ {
+		ft := st.Field(i).Type()
+		if vc.flatStruct(ft) {
+			vc.structFamilies(ft, set, seen)
+		} else if at, ok := ft.Underlying().(*types.Array); ok {
+			if vc.flatStruct(at.Elem()) {
+				vc.structFamilies(at.Elem(), set, seen)
+			} else {
+				set["E_"+vc.typeName(at.Elem())+"*"] = true
+			}
+		}
+	}
 }
